@@ -130,6 +130,8 @@ def run(ctx, cases, pid, tags=None, known=(), unit_modules=(), skip_data=False, 
         u = mod.run_unit(ctx)
         for v in u.get("violations", []):
             viol.append(v)
+        for kl in u.get("known", []) or []:
+            known_lines.append(kl if isinstance(kl, str) else json.dumps(kl)[:200])
         if not u.get("violations"):
             side_ok += 1
         unit_cov[mname] = dict(evaluations=u.get("evaluations"), distinct=u.get("distinct"), samples=(u.get("samples") or [])[:2])
